@@ -1,8 +1,9 @@
-(* C20 (translation layer, WP-T2) - the shape arithmetic of lentil.util.rebin is what the source says NOW.
-   [src_<f>] (Gen/GeometrySrc.v) is regenerated from the text of lentil/util.py by harness/gen_src.py on every
+(* C20 (translation layer, WP-T2) - the shape arithmetic of lentil.util.rebin and the hex-lattice list building of
+   lentil/segmented.py are what the source says NOW.
+   [src_<f>] (Gen/GeometrySrc.v) is regenerated from the text of lentil/util.py and lentil/segmented.py by harness/gen_src.py on every
    check; the theorems hold for ALL integer arguments.  (pad, subarray, slice_offset and boundary_slice, also part
    of C20's model, are covered by Properties/C06Src.v.)  Only statements: every proof is [exact]. *)
-From LV Require Import Model.Geometry Gen.GeometrySrc Proofs.GeometrySrcP.
+From LV Require Import Model.Geometry Model.Shapes Gen.GeometrySrc Proofs.GeometrySrcP.
 
 (* 2-d: complex data is refused, otherwise img.reshape(n // f, f, m // f, f) *)
 Theorem C20_src_rebin_reshape_is_model : forall (n m f : Z) (cplx : bool),
@@ -20,10 +21,10 @@ Theorem C20_src_rebin_reshape_is_rebin2 : forall (S : Scalar) (a : arr S) (f : Z
 Proof. exact src_rebin_reshape_model. Qed.
 Print Assumptions C20_src_rebin_reshape_is_rebin2.
 
-(* cube (d, n, m): rebinned_shape = (d, n // f, m // f), every slice reshaped to (n // f, f, m // f, f) *)
+(* cube (d, n, m): rebinned_shape = (d, n // f, m // f), the cube reshaped to (d, n // f, f, m // f, f) *)
 Theorem C20_src_rebin_reshape_3d_is_model : forall (d n m f : Z) (cplx : bool),
   src_rebin_reshape_3d (d, n, m) f cplx =
-  if cplx then Err ValueError else Ok ((d, n / f, m / f), (n / f, f, m / f, f)).
+  if cplx then Err ValueError else Ok ((d, n / f, m / f), (d, n / f, f, m / f, f)).
 Proof. exact src_rebin_reshape_3d_ok. Qed.
 Print Assumptions C20_src_rebin_reshape_3d_is_model.
 
@@ -35,3 +36,18 @@ Theorem C20_src_rebin_reshape_3d_is_rebin3 : forall (S : Scalar) (c : cube S) (f
   end.
 Proof. exact src_rebin_reshape_3d_model. Qed.
 Print Assumptions C20_src_rebin_reshape_3d_is_rebin3.
+
+(* ---- lentil/segmented.py: the hexagonal lattice (Hex is a named tuple of cube coordinates) ---- *)
+(* hex_add, including the assertion of Hex() that the coordinates sum to zero *)
+Theorem C20_src_hex_add_is_model : forall a b : hex,
+  src_hex_add a b =
+  if (let '(q, r, s) := a in q + r + s) + (let '(q, r, s) := b in q + r + s) =? 0
+  then Ok (hex_add a b) else Err AssertionErr.
+Proof. exact src_hex_add_ok. Qed.
+Print Assumptions C20_src_hex_add_is_model.
+
+(* hex_ring: the loop over the six directions (unrolled) and the loops over range(radius) (folds), with the
+   assertions of Hex() at every step: they never fire, and the list is the model's ring, for every integer radius *)
+Theorem C20_src_hex_ring_is_model : forall radius : Z, src_hex_ring radius = Ok (hex_ring radius).
+Proof. exact src_hex_ring_ok. Qed.
+Print Assumptions C20_src_hex_ring_is_model.
